@@ -747,6 +747,18 @@ def _kind_of(x):
     return type(x)
 
 
+def _kround(r):
+    """mode K with opts['float_rounding']: the result of a float +, -, * is only known up to half an ulp
+    (standard model, relative 2^-53) - models absorption such as 3.0 - 1e18 == 2.0 - 1e18.  Integer results stay exact."""
+    if ENG is None or not ENG.opts.get('float_rounding') or r.kind is not builtins.float:
+        return r
+    v = ENG.newvar('fl')
+    ax = z3.If(r.t >= 0, r.t, -r.t)
+    ENG.add_axiom(z3.And(v - r.t <= ax / TWO53, r.t - v <= ax / TWO53), 0)
+    out = Sym(v, builtins.float, s=r.s, f=r.f)
+    return out
+
+
 def _arith_kind(a, b, div=False):
     ka, kb = _kind_of(a), _kind_of(b)
     if div:
@@ -790,13 +802,13 @@ class Sym:
 
     def __add__(s, o):
         try:
-            return Sym(s.t + lift(o), _arith_kind(s, o), s=_sf(lambda a, b: a + b, s.s, shadow_of(o)), f=f_add(s.f, facts_of(o)))
+            return _kround(Sym(s.t + lift(o), _arith_kind(s, o), s=_sf(lambda a, b: a + b, s.s, shadow_of(o)), f=f_add(s.f, facts_of(o))))
         except TypeError:
             return NotImplemented
 
     def __radd__(s, o):
         try:
-            return Sym(lift(o) + s.t, _arith_kind(s, o), s=_sf(lambda a, b: b + a, s.s, shadow_of(o)), f=f_add(s.f, facts_of(o)))
+            return _kround(Sym(lift(o) + s.t, _arith_kind(s, o), s=_sf(lambda a, b: b + a, s.s, shadow_of(o)), f=f_add(s.f, facts_of(o))))
         except TypeError:
             return NotImplemented
 
@@ -807,23 +819,23 @@ class Sym:
             return NotImplemented
         if _sgn(s.f) in ('pos', 'nonneg') and _sgn(facts_of(o)) in ('pos', 'nonneg'):
             r.c = (s.t, lift(o))
-        return r
+        return _kround(r) if (ENG is not None and ENG.opts.get('float_rounding')) else r
 
     def __rsub__(s, o):
         try:
-            return Sym(lift(o) - s.t, _arith_kind(s, o), s=_sf(lambda a, b: b - a, s.s, shadow_of(o)), f=f_add(facts_of(o), f_neg(s.f)))
+            return _kround(Sym(lift(o) - s.t, _arith_kind(s, o), s=_sf(lambda a, b: b - a, s.s, shadow_of(o)), f=f_add(facts_of(o), f_neg(s.f))))
         except TypeError:
             return NotImplemented
 
     def __mul__(s, o):
         try:
-            return Sym(s.t * lift(o), _arith_kind(s, o), s=_sf(lambda a, b: a * b, s.s, shadow_of(o)), f=f_mul(s.f, facts_of(o)))
+            return _kround(Sym(s.t * lift(o), _arith_kind(s, o), s=_sf(lambda a, b: a * b, s.s, shadow_of(o)), f=f_mul(s.f, facts_of(o))))
         except TypeError:
             return NotImplemented
 
     def __rmul__(s, o):
         try:
-            return Sym(lift(o) * s.t, _arith_kind(s, o), s=_sf(lambda a, b: b * a, s.s, shadow_of(o)), f=f_mul(s.f, facts_of(o)))
+            return _kround(Sym(lift(o) * s.t, _arith_kind(s, o), s=_sf(lambda a, b: b * a, s.s, shadow_of(o)), f=f_mul(s.f, facts_of(o))))
         except TypeError:
             return NotImplemented
 
@@ -1256,6 +1268,13 @@ class SymMath:
         return math.exp(x)
 
 
+def _all_int_kind(a):
+    """kind of max/min: int only when the float-rounding model is on (mode K) and every operand is int-kinded"""
+    if ENG is None or not ENG.opts.get('float_rounding'):
+        return builtins.float
+    return builtins.int if all(_kind_of(x) in (builtins.int, builtins.bool) for x in a) else builtins.float
+
+
 def sym_max(*a, **kw):
     if len(a) == 1 and not kw:
         a = tuple(a[0])
@@ -1269,7 +1288,7 @@ def sym_max(*a, **kw):
         r = z3.If(xt > r, xt, r)
         sh = _sf(builtins.max, sh, shadow_of(x))
         ff = f_max(ff, facts_of(x))
-    return Sym(r, s=sh, f=ff)
+    return Sym(r, _all_int_kind(a), s=sh, f=ff)
 
 
 def sym_min(*a, **kw):
@@ -1285,7 +1304,7 @@ def sym_min(*a, **kw):
         r = z3.If(xt < r, xt, r)
         sh = _sf(builtins.min, sh, shadow_of(x))
         ff = f_min(ff, facts_of(x))
-    return Sym(r, s=sh, f=ff)
+    return Sym(r, _all_int_kind(a), s=sh, f=ff)
 
 
 def sym_int(x, how='trunc'):
